@@ -377,6 +377,27 @@ func resolutionObligation(p *Prog, r *Report) {
 			}
 		}
 	}
+	if p.ControlSSA != nil {
+		gotInvoke, gotDefer := false, false
+		for _, fn := range p.ControlFuncs {
+			for _, b := range fn.Blocks {
+				for _, in := range b.Instrs {
+					switch in := in.(type) {
+					case *ssa.Call:
+						if in.Call.IsInvoke() && fn.Name() == "Hidden" {
+							nm := invokeName(&in.Call)
+							gotInvoke = !readOnlyInvokes[nm] && !decoderInvokes[nm]
+						}
+					case *ssa.Defer:
+						if fn.Name() == "Late" && !(in.Call.IsInvoke() && in.Call.Method.Name() == "Close") {
+							gotDefer = true
+						}
+					}
+				}
+			}
+		}
+		r.check(gotInvoke && gotDefer, "positive-control", "positive-control/resolution", "", "the resolution rule reports the fixture's unknown interface method and deferred call", "the resolution rule misses the fixture's unknown invoke or deferred call")
+	}
 	if bad == 0 {
 		r.ok("resolution", "resolution/all", "", fmt.Sprintf("%d module functions: every call resolves statically, to a dependency interface, or to a function value bound at the call site; no recursion", n))
 	}
